@@ -11,7 +11,7 @@ mkdir -p $VERIF_BUILD
 cd /verif
 set +e
 ./check $P "$@" > $VERIF_BUILD/$P.out 2>&1; rc=$?
-grep -E "^(SUMMARY|VIOLATION|KNOWN-FINDING|HARNESS)" $VERIF_BUILD/$P.out | cut -c1-300
+grep -E "^(SUMMARY|VIOLATION|KNOWN-FINDING|HARNESS|CORPUS)" $VERIF_BUILD/$P.out | cut -c1-300
 grep -E "^  class=" $VERIF_BUILD/$P.out | cut -c1-300 | head -8
 echo "exit=$rc"
 git -C "$W" checkout -q -- .
